@@ -56,7 +56,7 @@ for p in props:
 m={"version":1,"setup_cmd":"cd /verif/harness && CARGO_NET_OFFLINE=true cargo build --release --offline","hooks":{"guard":"cargo feature `verif` of the avt crate","enable":"harness/Cargo.toml depends on avt with features=[\"verif\"] (adds the read-only Vt::verif_state())","baseline_off_cmd":"cd /repo && cargo test --workspace --no-fail-fast --offline","source_commits":["69ec11d"],"add_only":True},
 "engines":[{"name":"avtmc-selfcheck","path":"/verif/selfcheck","serves_properties":[],"kind_free_text":"`./check selfcheck [depth]`: stateright 0.31 parallel BFS over the same transition system; its set of reachable implementation fingerprints must equal avtmc's (guards the engine, not a property)"},{"name":"avtmc","path":"/verif/harness","serves_properties":claimed,"kind_free_text":"custom level-synchronous parallel BFS over op histories of the real avt::Vt (states rebuilt by replay, dedup on a 128-bit fingerprint of the Debug rendering), with invariant / differential / reference-model oracles"}],
 "checks":checks,
-"notes":"See DESIGN.md. Genuine defects repaired in /repo as fix: commits 94874da (C19), fd7d59d (C05), 26980ca (C04), 3f030b4 (C18); recorded findings in known_findings.json.",
+"notes":"See DESIGN.md. Genuine defects repaired in /repo as fix: commits 94874da (C19), fd7d59d (C05), 26980ca (C04), 3f030b4 (C18), 2ef9fbf (C12); recorded findings in known_findings.json.",
 "not_applicable":[{"property_id":p['id'],"reason":"check not built yet in this commit (planned, see DESIGN.md §4)"} for p in props if p['id'] not in T]}
 json.dump(m,open('/verif/MANIFEST.json','w'),indent=1)
 print("claimed",claimed)
